@@ -1,4 +1,5 @@
 import Xo.LayM
+import Xo.Model.Index
 namespace LayM
 open CGen
 /-! Reader side: views (`_from_buffer`), element access, deep read, assignment (`__set__`/`__setitem__`/`_update`),
@@ -56,8 +57,7 @@ def itemAddr (t : Ty) (m : Mem) (off : Nat) (idx : List Int) : Except Err Nat :=
   | .array it shp ord =>
     let av := arrView t m off
     let ai := arrInfo it shp ord
-    if idx.length > av.shape.length then .error .index          -- bound_check: more coordinates than axes
-    else if (idx.zip av.shape).any (fun (i, s) => i < 0 || i ≥ (s : Int)) then .error .index
+    if !Lay.boundCheck av.shape idx then .error .index          -- the definition the C11 index theorems are about
     else
       let ix := idx.map Int.toNat
       if ai.staticType then
